@@ -316,6 +316,38 @@ struct StaleDup : Monitor {
 		hist.push_back({seq, d, m.id, w->S.now});
 		if (hist.size() > 40) hist.pop_front();
 	}
+	// the same towards the server: an old upstream data query (beyond the server's duplicate memory of 15 data queries and 4-7
+	// sequence numbers back) arrives again right after the first fragment of a multi-fragment upstream packet
+	struct OldQ { int seq; Dgram d; uint64_t idx; };
+	std::deque<OldQ> qhist; uint64_t nq = 0, nup = 0;
+	void on_recv(Task &t, const Dgram &d) override
+	{
+		if (&t != w->srv || d.redelivery || d.data.size() < 12) return;
+		DnsMsg m; UpQuery u;
+		if (!dns_parse_strict(d.data, m).empty() || m.qd.empty() || m.qr) return;
+		if (!decode_upquery(m.qd[0].name.dotted(), w->domain, u) || u.cmd != 'd') return;
+		uint64_t idx = ++nq;
+		{
+			// decoded size of this chunk (the client's codec is whatever the server currently uses for the session)
+			UserView v;
+			if (peek_user(u.userid, v)) { int c = codec_from_name(v.encoder); if (c) { size_t n = codec_decode(c, u.enc_payload).size(); if (n > w->up_chunk) w->up_chunk = n; } }
+		}
+		if (u.up_frag == 0 && !u.last && p > 0 && w->all_in_tunnel) {
+			uint64_t key = ++nup;
+			if (w->S.U("staleq.do", key) < p) {
+				std::vector<const OldQ *> cand;
+				for (auto &o : qhist) if (((u.up_seq - o.seq) & 7) >= 4 && idx - o.idx >= 16) cand.push_back(&o);
+				if (!cand.empty()) {
+					Dgram c = cand[w->S.D("staleq.pick", key) % cand.size()]->d; c.redelivery = true;
+					Sim *S = &w->S;
+					S->after(w->S.R("staleq.dt", key, 50, 3000), [S, c]() { S->deliver(c); });
+					w->S.count("fault.stale_dup_up");
+				} else w->S.count("fault.stale_dup_up.no_candidate");
+			}
+		}
+		qhist.push_back({u.up_seq, d, idx});
+		if (qhist.size() > 80) qhist.pop_front();
+	}
 };
 Monitor *mk_stale_dup(World *w) { return new StaleDup(w); }
 
